@@ -759,12 +759,28 @@ def inline_unknown_helpers(tree, modname):
                 while i < len(block):
                     st = block[i]
                     call = None
-                    if isinstance(st, (ast.Assign, ast.AugAssign, ast.Expr, ast.Return)) and isinstance(getattr(st, "value", None), ast.Call):
+                    if isinstance(st, (ast.Assign, ast.Expr, ast.Return)) and isinstance(getattr(st, "value", None), ast.Call) \
+                            and callee_of(st.value, cls)[0] is not None:
                         call = st.value
                         where = "value"
                     elif isinstance(st, ast.For) and isinstance(st.iter, ast.Call):
                         call = st.iter
                         where = "iter"
+                    elif isinstance(st, (ast.Assign, ast.AugAssign, ast.Expr, ast.Return)) and getattr(st, "value", None) is not None \
+                            and (not isinstance(st, ast.AugAssign) or isinstance(st.target, ast.Name)):
+                        # the first call evaluated in the statement, when only plain names / literals are read before it
+                        order = _eval_order(st) or []
+                        for k_, x in enumerate(order):
+                            if isinstance(x, ast.Call):
+                                inside = {id(y) for y in ast.walk(x)}
+                                before = [y for y in order[:k_] if id(y) not in inside]
+                                if callee_of(x, cls)[0] is not None and all(
+                                        isinstance(y, (ast.Name, ast.Constant, ast.operator, ast.unaryop, ast.cmpop, ast.expr_context, ast.Tuple, ast.List,
+                                                       ast.BinOp, ast.UnaryOp, ast.Compare, ast.BoolOp)) and not isinstance(y, (ast.Attribute, ast.Subscript))
+                                        for y in before) and not any(isinstance(y, SCOPES) for y in order[:k_]):
+                                    call = x
+                                    where = "nested"
+                                break
                     if call is None or any(k.arg is None for k in call.keywords) or any(isinstance(a, ast.Starred) for a in call.args):
                         i += 1
                         continue
@@ -797,9 +813,6 @@ def inline_unknown_helpers(tree, modname):
                     if fdef is None or fdef is fn or (isinstance(call.func, ast.Name) and call.func.id in local_stores):
                         i += 1
                         continue
-                    if isinstance(st, ast.AugAssign):
-                        i += 1
-                        continue          # target is read before the call: hoisting would reorder
                     # free names of the helper must mean the same at the call site
                     free = {x.id for x in ast.walk(fdef) if isinstance(x, ast.Name)} - {a.arg for a in fdef.args.args} \
                         - {x.id for x in ast.walk(fdef) if isinstance(x, ast.Name) and isinstance(x.ctx, ast.Store)}
@@ -817,6 +830,11 @@ def inline_unknown_helpers(tree, modname):
                         else:
                             st.value = res if res is not None else ast.Constant(value=None)
                             block[i:i] = stmts
+                    elif where == "nested":
+                        if not _replace(st, call, res if res is not None else ast.Constant(value=None)):
+                            i += 1
+                            continue
+                        block[i:i] = stmts
                     else:
                         st.iter = res if res is not None else ast.Constant(value=None)
                         block[i:i] = stmts
